@@ -5,8 +5,8 @@ package main
 var props = map[string]*propCfg{
 	"C18": {
 		ID: "C18", Level: "exploration", QuickSecs: 45, ThoroughSecs: 600, HangIsVerdict: true,
-		Lanes: []lane{{Variant: "", Share: 1}},
-		Rule: "one evaluation = one seeded needs graph (1-8 jobs; self loops, duplicate entries, mixed-case ids, dangling references, disjoint cycles, cycles sharing nodes, tails into cycles; random definition and needs order) linted once by the real rule under a seeded iteration order of the rule's node map, its resolve loop and the job visiting order; distinct = distinct (workflow text, installed map-order modes); non-trivial = the graph has >= 2 jobs and at least one instrumented map-range site iterated >= 2 keys in a non-identity order",
+		Lanes: []lane{{Variant: "", Share: 10}, {Variant: "multi", Share: 4}, {Variant: "multi", Race: true, Share: 2}},
+		Rule: "one evaluation = one seeded needs graph (1-8 jobs; seven shapes: sparse, dense, DAG, ring with chords, tail into a cycle, two clusters, top-down with self loops; duplicate entries, mixed-case ids, dangling references, disjoint cycles, cycles sharing nodes; random definition and needs order; lane 'multi': 2-4 such graphs as the files of one LintFiles call under a seeded schedule, also on the -race build) linted once by the real rule under a seeded iteration order of the rule's node map, its resolve loop and the job visiting order; distinct = distinct (workflow text, installed map-order modes); non-trivial = the graph has >= 2 jobs and at least one instrumented map-range site iterated >= 2 keys in a non-identity order",
 		Assumptions: []string{
 			"reference model: lower-cased vertex ids, de-duplicated resolved edges, DFS colouring for 'has a cycle'; graphs with case-insensitively duplicate job ids are not generated (the property does not say which definition wins)",
 			"cycle reporting is only checked when every reference resolves (the property specifies it for that case only); a dangling reference written k times may be reported between 1 and k times",
